@@ -265,9 +265,10 @@ def execute(sc, sim):
     mem_cf = refgram.is_contextfree(mem)
     # ---- documented refusals
     if fmt == "lopar" and sc["platform"] != "Linux":
-        st.probe("other_platform_refused")
-        if not failed:
-            viols.append(cm.viol("C09/lopar/written-on-unsupported-platform"))
+        # the writer refuses to run outside Linux; C09 says nothing about platforms, so
+        # neither the refusal nor its absence is judged
+        if failed:
+            st.probe("other_platform_refused")
         return done(sc, st, viols)
     if fmt == "lopar" and not mem_cf:
         st.probe("lopar_refuses_non_cf")
